@@ -507,4 +507,164 @@ theorem es_identification (df c aa tc ca : Nat) (cs : List Char)
   · intro F hF
     exact me_bds08 F df c aa tc ca c0 c1 c2 c3 c4 c5 c6 c7 cs hF htc hrt
 
+/-- **DF 17/18, BDS 0,9 velocity over ground (subtypes 1 and 2)**: all 2 × 1023 × 2 × 1023 combinations
+    of the two components (direction bit, LSB count `v` sent as code `v + 1`), every value of every
+    other field — including *all* codes of the vertical-rate and GNSS/baro fields, whose decoded values
+    `vrv`, `gbv` are the standard's whenever the code is not the "no information" code.
+    The reported ground speed / track are `hypot(|ew|, |ns|)` / `atan2(ew, ns)` of the exactly decoded
+    components `ew = ±vew`, `ns = ±vns`.
+
+    For subtype 1 (LSB 1 kt) this is the standard's value.  For subtype 2 the standard's LSB is
+    4 kt, i.e. the components should be `±4·v`: the code (and hence the model) does not scale them —
+    known finding `C03-supersonic-groundspeed-not-scaled`; this theorem with `sub = 2` is the witness. -/
+theorem es_velocity_ground (df c aa sub ic ifr nacv dew vew dns vns vsrc vsign vr gsign g : Nat)
+    (hdf : df = 17 ∨ df = 18) (hc : c < 2 ^ 3) (haa : aa < 2 ^ 24) (hsub : sub = 1 ∨ sub = 2)
+    (hic : ic < 2 ^ 1) (hifr : ifr < 2 ^ 1) (hnacv : nacv < 2 ^ 3)
+    (hdew : dew < 2 ^ 1) (hvew : vew < 1023) (hdns : dns < 2 ^ 1) (hvns : vns < 1023)
+    (hvsrc : vsrc < 2 ^ 1) (hvsign : vsign < 2 ^ 1) (hvr : vr < 2 ^ 9) (hgsign : gsign < 2 ^ 1) (hg : g < 2 ^ 7) :
+    ∃ vrv gbv,
+      (∀ n, n < 511 → vr = vrateCode n → vrv = some (signed vsign (64 * n))) ∧
+      (∀ n, n < 127 → g = geoBaroCode n → gbv = some (signed gsign (25 * n))) ∧
+      tryFrom (buildES df c aa (me09 sub ic ifr nacv (velGround dew (speedCode vew) dns (speedCode vns))
+          vsrc vsign vr gsign g)) =
+        .ok (toDecoded (withFields (esHead df c aa) (out09 nacv
+          [ fld (key! "groundspeed") (Bds09.groundspeedJ (signed dew vew) (signed dns vns)),
+            fld (key! "track") (Bds09.trackJ (signed dew vew) (signed dns vns)) ]
+          vsrc vrv gbv))) := by
+  obtain ⟨vrv, hvrv⟩ := isOk_elim (vrate_total vsign hvsign vr hvr)
+  obtain ⟨gbv, hgbv⟩ := isOk_elim (geobaro_total gsign hgsign g hg)
+  refine ⟨vrv, gbv, ?_, ?_, ?_⟩
+  · intro n hn e
+    rw [e, vrate_rt vsign hvsign n (by omega) hn] at hvrv
+    cases hvrv; rfl
+  · intro n hn e
+    rw [e, geobaro_rt gsign hgsign n (by omega) hn] at hgbv
+    cases hgbv; rfl
+  · refine tryFrom_es df c aa _ _ hdf hc haa (by simp [width, me09, velGround]) ?_ ?_
+    · have : sub < 2 ^ 3 := by omega
+      have : speedCode vew < 2 ^ 10 := by unfold speedCode; omega
+      have : speedCode vns < 2 ^ 10 := by unfold speedCode; omega
+      simp [fits, me09, velGround, *]
+    · intro F hF
+      exact me_bds09_ground F df c aa sub ic ifr nacv dew _ dns _ vsrc vsign vr gsign g _ _ vrv gbv hF hsub
+        (vel_gs_rt dew hdew vew (by omega) hvew) (vel_gs_rt dns hdns vns (by omega) hvns) hvrv hgbv
+
+/-- **DF 17/18, BDS 0,9 airspeed and heading (subtypes 3 and 4)**: every heading code and status,
+    every airspeed code `v + 1` and type, every value of the other fields.  Heading `hdg·360/1024`
+    when the status bit is set; airspeed `v` kt (subtype 3) or `4·v` kt (subtype 4) under `IAS`/`TAS`. -/
+theorem es_airspeed (df c aa sub ic ifr nacv hst hdg ast v vsrc vsign vr gsign g : Nat)
+    (hdf : df = 17 ∨ df = 18) (hc : c < 2 ^ 3) (haa : aa < 2 ^ 24) (hsub : sub = 3 ∨ sub = 4)
+    (hic : ic < 2 ^ 1) (hifr : ifr < 2 ^ 1) (hnacv : nacv < 2 ^ 3)
+    (hhst : hst < 2 ^ 1) (hhdg : hdg < 2 ^ 10) (hast : ast < 2 ^ 1) (hv : v < 1023)
+    (hvsrc : vsrc < 2 ^ 1) (hvsign : vsign < 2 ^ 1) (hvr : vr < 2 ^ 9) (hgsign : gsign < 2 ^ 1) (hg : g < 2 ^ 7) :
+    ∃ vrv gbv,
+      (∀ n, n < 511 → vr = vrateCode n → vrv = some (signed vsign (64 * n))) ∧
+      (∀ n, n < 127 → g = geoBaroCode n → gbv = some (signed gsign (25 * n))) ∧
+      tryFrom (buildES df c aa (me09 sub ic ifr nacv (velAir hst hdg ast (speedCode v)) vsrc vsign vr gsign g)) =
+        .ok (toDecoded (withFields (esHead df c aa) (out09 nacv
+          (Bds09.airspeedFields (if hst == 1 then some (jrat (hdg * 360) 1024) else none) ast
+            (some (if sub = 3 then v else 4 * v)))
+          vsrc vrv gbv))) := by
+  obtain ⟨vrv, hvrv⟩ := isOk_elim (vrate_total vsign hvsign vr hvr)
+  obtain ⟨gbv, hgbv⟩ := isOk_elim (geobaro_total gsign hgsign g hg)
+  have hsp := airspeed_rt v (by omega) hv
+  refine ⟨vrv, gbv, ?_, ?_, ?_⟩
+  · intro n hn e
+    rw [e, vrate_rt vsign hvsign n (by omega) hn] at hvrv
+    cases hvrv; rfl
+  · intro n hn e
+    rw [e, geobaro_rt gsign hgsign n (by omega) hn] at hgbv
+    cases hgbv; rfl
+  · refine tryFrom_es df c aa _ _ hdf hc haa (by simp [width, me09, velAir]) ?_ ?_
+    · have : sub < 2 ^ 3 := by omega
+      have : speedCode v < 2 ^ 10 := by unfold speedCode; omega
+      simp [fits, me09, velAir, *]
+    · intro F hF
+      rcases hsub with rfl | rfl
+      · exact me_bds09_air3 F df c aa ic ifr nacv hst hdg ast _ vsrc vsign vr gsign g _ vrv gbv hF hsp.1 hvrv hgbv
+      · exact me_bds09_air4 F df c aa ic ifr nacv hst hdg ast _ vsrc vsign vr gsign g _ vrv gbv hF hsp.2 hvrv hgbv
+
+/-- **DF 17/18, BDS 6,1 aircraft status**: all 4096 squawks, every emergency state and subtype -/
+theorem es_status (df c aa sub es q : Nat)
+    (hdf : df = 17 ∨ df = 18) (hc : c < 2 ^ 3) (haa : aa < 2 ^ 24) (hsub : sub < 2 ^ 3) (hes : es < 2 ^ 3)
+    (hq : q < 2 ^ 12) :
+    tryFrom (buildES df c aa (me61 sub es (id13OfOctal q))) =
+      .ok (toDecoded (withFields (esHead df c aa) (tagged (key! "bds") (key! "61") (.ok [
+        fld (key! "subtype") (.lit (Bds61.subtypeName sub)),
+        fld (key! "emergency_state") (.lit (Bds61.emergencyName es)),
+        fld (key! "squawk") (jhex4
+          (0x1000 * ((q >>> 9) % 8) + 0x100 * ((q >>> 6) % 8) + 0x10 * ((q >>> 3) % 8) + q % 8)) ])))) := by
+  rw [← squawk_rt q hq]
+  refine tryFrom_es df c aa _ _ hdf hc haa rfl ?_ ?_
+  · simp [fits, me61, hsub, hes, id13OfOctal_lt q hq]
+  · intro F hF
+    exact me_bds61 F df c aa sub es _ hF
+
+theorem selalt62_total : ∀ a, a < 2 ^ 11 → (Bds62.selectedAltitude a).isOk = true := enum 11 (by decide +kernel)
+theorem qnh62_total : ∀ n, n < 2 ^ 9 → (Bds62.barometricSetting n).isOk = true := enum 9 (by decide +kernel)
+
+/-- **DF 17/18, BDS 6,2 target state and status**: every code of every field; the selected altitude is
+    the encoded one on the whole 100 ft grid, the pressure setting the single-precision value of
+    `800 + 0.8 (n − 1)` (within 0.0001 mb of it, `qnh62_rt`), the heading `hdg·180/256`. -/
+theorem es_target_state (df c aa silSup altType sa qc hst hdg nacp nicb sil ms ap vnav ah adsr app tcas lnav : Nat)
+    (hdf : df = 17 ∨ df = 18) (hc : c < 2 ^ 3) (haa : aa < 2 ^ 24)
+    (h1 : silSup < 2 ^ 1) (h2 : altType < 2 ^ 1) (hsa : sa < 2 ^ 11) (hqc : qc < 2 ^ 9) (h3 : hst < 2 ^ 1)
+    (h4 : hdg < 2 ^ 9) (h5 : nacp < 2 ^ 4) (h6 : nicb < 2 ^ 1) (h7 : sil < 2 ^ 2) (h8 : ms < 2 ^ 1)
+    (h9 : ap < 2 ^ 1) (h10 : vnav < 2 ^ 1) (h11 : ah < 2 ^ 1) (h12 : adsr < 2 ^ 1) (h13 : app < 2 ^ 1)
+    (h14 : tcas < 2 ^ 1) (h15 : lnav < 2 ^ 1) :
+    ∃ altv qv,
+      (∀ k, k ≤ 654 → sa = selAlt62Code (100 * k) → altv = some (100 * k)) ∧
+      (1 ≤ qc → qv = some (Bds62.qnhF32Num qc, Bds62.qnhDen) ∧
+        qnhClose (Bds62.qnhF32Num qc) (8000 + 8 * (qc - 1)) = true) ∧
+      tryFrom (buildES df c aa
+          (me62 silSup altType sa qc hst hdg nacp nicb sil ms ap vnav ah adsr app tcas lnav)) =
+        .ok (toDecoded (withFields (esHead df c aa)
+          (out62 altType altv qv hst hdg nacp ms ap vnav ah app tcas lnav))) := by
+  obtain ⟨altv, halt⟩ := isOk_elim (selalt62_total sa hsa)
+  obtain ⟨qv, hqv⟩ := isOk_elim (qnh62_total qc hqc)
+  refine ⟨altv, qv, ?_, ?_, ?_⟩
+  · intro k hk e
+    rw [e, (selalt62_rt k (by omega) hk).2] at halt
+    cases halt; rfl
+  · intro h1q
+    have := qnh62_rt qc hqc h1q
+    rw [this.1] at hqv
+    cases hqv
+    exact ⟨rfl, this.2.1⟩
+  · refine tryFrom_es df c aa _ _ hdf hc haa (by simp [width, me62]) ?_ ?_
+    · simp [fits, me62, *]
+    · intro F hF
+      exact me_bds62 F df c aa silSup altType sa qc hst hdg nacp nicb sil ms ap vnav ah adsr app tcas lnav
+        altv qv hF halt hqv
+
+/-- **DF 4**: every 25 ft altitude code in the AC field, every 24-bit address through the AP overlay,
+    every value of FS, DR, UM -/
+theorem df4_altitude (fs dr um n addr : Nat)
+    (hfs : fs < 2 ^ 3) (hdr : dr < 2 ^ 5) (hum : um < 2 ^ 6) (hn : n < 2 ^ 11) (haddr : addr < 2 ^ 24) :
+    tryFrom (buildShort 4 fs dr um (ac13Q n) addr) = .ok (toDecoded (.ok
+      [dfTag (key! "4"), fld (key! "altitude") (jnat (if n > 40 then 25 * n - 1000 else 0)),
+       fld (key! "icao24") (jhex6 addr)])) :=
+  tryFrom_df4 fs dr um _ addr _ hfs hdr hum (ac13Q_lt n hn) haddr (alt25_ac13_rt n hn)
+
+/-- … with a Gillham-coded altitude -/
+theorem df4_altitude_gillham (fs dr um s addr : Nat)
+    (hfs : fs < 2 ^ 3) (hdr : dr < 2 ^ 5) (hum : um < 2 ^ 6) (hs : s < GILLHAM_STEPS) (haddr : addr < 2 ^ 24) :
+    tryFrom (buildShort 4 fs dr um (ac13G s) addr) = .ok (toDecoded (.ok
+      [dfTag (key! "4"),
+       fld (key! "altitude") (jnat (if 12 ≤ s ∧ 100 * (s - 12) < 65536 then 100 * (s - 12) else 0)),
+       fld (key! "icao24") (jhex6 addr)])) := by
+  have hs11 : s < 2 ^ 11 := by unfold GILLHAM_STEPS at hs; omega
+  exact tryFrom_df4 fs dr um _ addr _ hfs hdr hum (ac13G_lt s hs11) haddr (gillham_ac13_rt s hs11 hs)
+
+/-- **DF 5**: all 4096 squawks in the ID field, every address -/
+theorem df5_squawk (fs dr um q addr : Nat)
+    (hfs : fs < 2 ^ 3) (hdr : dr < 2 ^ 5) (hum : um < 2 ^ 6) (hq : q < 2 ^ 12) (haddr : addr < 2 ^ 24) :
+    tryFrom (buildShort 5 fs dr um (id13OfOctal q) addr) = .ok (toDecoded (.ok
+      [dfTag (key! "5"),
+       fld (key! "squawk") (jhex4
+          (0x1000 * ((q >>> 9) % 8) + 0x100 * ((q >>> 6) % 8) + 0x10 * ((q >>> 3) % 8) + q % 8)),
+       fld (key! "icao24") (jhex6 addr)])) := by
+  rw [← squawk_rt q hq]
+  exact tryFrom_df5 fs dr um _ addr hfs hdr hum (id13OfOctal_lt q hq) haddr
+
 end Rs1090.Props.C03
